@@ -2711,3 +2711,38 @@ def spec_complete_option_state(fns, consts):
 
 spec_complete_option_state.crate = "clap_complete"
 SPECS["C18"].append(spec_complete_option_state)
+
+
+# ------------------------------------------------------------------ C18: the shell adapters never panic on their index arithmetic
+
+def spec_shell_adapter_index(fns, consts):
+    """clap_complete::env::{Bash, Elvish, Fish, Powershell, Zsh}::write_complete (public trait methods):
+    no integer overflow / underflow edge is reachable for ANY argument vector - in particular the cursor
+    index computed as `args.len() - 1` must not underflow for an empty vector (nothing after `--`)."""
+    con = contracts.Contracts(fns, default_pure=True)
+    ctx = symex.Ctx(consts, con)
+    obs, enc = [], []
+    bodies = [(n, f) for n, f in fns.items() if re.search(r"^env::shells::<impl at clap_complete/src/env/shells\.rs:[\d: ]+>::write_complete$", n)]
+    if len(bodies) < 4:
+        raise Unsupported(f"clap_complete: expected the shell adapters' write_complete bodies, found {len(bodies)}")
+    for n, f in sorted(bodies):
+        fn = f.get()
+        shell = re.search(r"&env::shells::(\w+)", fn.params[0][1])
+        ex = symex.Exec(ctx, fn, [("opq", "self"), ("opq", "cmd"), ("opq", f"args_{shell.group(1) if shell else 'x'}"), ("opq", "current_dir"), ("opq", "buf")])
+        ex.run(havoc_unassigned=True, cut_loops=True)
+        k = 0
+        for o in ex.obligations:
+            if o["kind"] == "assert":
+                o2 = dict(o)
+                o2.update({"kind": "spec", "target": "shell_adapter_index", "msg": f"{shell.group(1) if shell else n}::write_complete: " + o["msg"][:70]})
+                obs.append(o2)
+                k += 1
+        enc.append(_enc(fn, ex, k))
+    if not obs:
+        # nothing to discharge is a fine outcome (no checked arithmetic left); keep one trivially true record for the evidence
+        obs.append({"fn": "env::shells", "block": "shape", "kind": "spec", "target": "shell_adapter_index", "msg": "no checked arithmetic in the shell adapters' write_complete", "pc": [], "neg": "false"})
+    return ctx, obs, enc, con
+
+
+spec_shell_adapter_index.crate = "clap_complete"
+SPECS["C18"].append(spec_shell_adapter_index)
